@@ -831,8 +831,11 @@ func runSshPool(cfg Config, rep *Report, m *Model, rng *rand.Rand) {
 		if problem != "" {
 			rep.Disagree(Disagreement{Kind: "monitor", Case: line, What: "sshpool: " + problem})
 			if strings.Contains(problem, "never returned") || strings.Contains(problem, "no message from the client") {
-				rep.Notes = append(rep.Notes, "sshpool: stopped after a time-out")
-				break // a store that hangs once hangs again: the check stays fast
+				// a store that hangs once hangs again, and the command-line runs that follow in runC14 use RemoteSSH without
+				// a time-out: the run ends here with what it has (the failing input is in the report)
+				rep.Notes = append(rep.Notes, "sshpool: RemoteSSH hangs; the rest of the C14 harness (command-line runs over casync-over-SSH) was skipped")
+				rep.Write(cfg.Out)
+				os.Exit(0)
 			}
 			continue
 		}
